@@ -1,0 +1,160 @@
+// Copyright 2023-2025 Buf Technologies, Inc.
+//
+// Licensed under the Apache License, Version 2.0 (the "License");
+// you may not use this file except in compliance with the License.
+// You may obtain a copy of the License at
+//
+//      http://www.apache.org/licenses/LICENSE-2.0
+//
+// Unless required by applicable law or agreed to in writing, software
+// distributed under the License is distributed on an "AS IS" BASIS,
+// WITHOUT WARRANTIES OR CONDITIONS OF ANY KIND, either express or implied.
+// See the License for the specific language governing permissions and
+// limitations under the License.
+
+//go:build verif
+
+package vanguard
+
+// This file is only compiled with the "verif" build tag. It exports thin
+// wrappers around unexported leaf functions so that an external verification
+// harness can call the real implementation. It adds no behaviour.
+
+import (
+	"errors"
+	"net/http"
+	"time"
+
+	"connectrpc.com/connect"
+)
+
+// VerifHTTPStatusCodeFromRPC wraps httpStatusCodeFromRPC.
+func VerifHTTPStatusCodeFromRPC(code uint32) int {
+	return httpStatusCodeFromRPC(connect.Code(code))
+}
+
+// VerifHTTPStatusCodeToRPC wraps httpStatusCodeToRPC.
+func VerifHTTPStatusCodeToRPC(status int) uint32 {
+	return uint32(httpStatusCodeToRPC(status))
+}
+
+// VerifGRPCPercentEncode wraps grpcPercentEncode.
+func VerifGRPCPercentEncode(msg string) string { return grpcPercentEncode(msg) }
+
+// VerifGRPCPercentDecode wraps grpcPercentDecode.
+func VerifGRPCPercentDecode(msg string) (string, error) { return grpcPercentDecode(msg) }
+
+// VerifTimeoutResult is the outcome of extracting a timeout from request headers.
+type VerifTimeoutResult struct {
+	HasTimeout bool
+	Timeout    time.Duration
+	Err        error
+	NoTimeout  bool // Err is the errNoTimeout sentinel
+}
+
+// VerifGRPCDecodeTimeout wraps grpcDecodeTimeout.
+func VerifGRPCDecodeTimeout(s string) VerifTimeoutResult {
+	d, err := grpcDecodeTimeout(s)
+	return VerifTimeoutResult{HasTimeout: err == nil, Timeout: d, Err: err, NoTimeout: errors.Is(err, errNoTimeout)}
+}
+
+// VerifGRPCExtractTimeout wraps grpcExtractTimeoutFromHeaders.
+func VerifGRPCExtractTimeout(headers http.Header) VerifTimeoutResult {
+	var meta requestMeta
+	err := grpcExtractTimeoutFromHeaders(headers, &meta)
+	return VerifTimeoutResult{HasTimeout: meta.hasTimeout, Timeout: meta.timeout, Err: err, NoTimeout: errors.Is(err, errNoTimeout)}
+}
+
+// VerifGRPCEncodeTimeout wraps grpcEncodeTimeout.
+func VerifGRPCEncodeTimeout(d time.Duration) string { return grpcEncodeTimeout(d) }
+
+// VerifConnectExtractTimeout wraps connectExtractTimeout.
+func VerifConnectExtractTimeout(headers http.Header) VerifTimeoutResult {
+	var meta requestMeta
+	err := connectExtractTimeout(headers, &meta)
+	return VerifTimeoutResult{HasTimeout: meta.hasTimeout, Timeout: meta.timeout, Err: err}
+}
+
+// VerifConnectEncodeTimeout wraps connectEncodeTimeout.
+func VerifConnectEncodeTimeout(d time.Duration) string { return connectEncodeTimeout(d) }
+
+// VerifRESTDecodeTimeout wraps restDecodeTimeout.
+func VerifRESTDecodeTimeout(s string) (time.Duration, error) { return restDecodeTimeout(s) }
+
+// VerifRESTEncodeTimeout wraps restEncodeTimeout.
+func VerifRESTEncodeTimeout(d time.Duration) string { return restEncodeTimeout(d) }
+
+// VerifPathEscape wraps pathEscape (multi selects pathEncodeMulti).
+func VerifPathEscape(s string, multi bool) string {
+	mode := pathEncodeSingle
+	if multi {
+		mode = pathEncodeMulti
+	}
+	return pathEscape(s, mode)
+}
+
+// VerifPathUnescape wraps pathUnescape (multi selects pathEncodeMulti).
+func VerifPathUnescape(s string, multi bool) (string, error) {
+	mode := pathEncodeSingle
+	if multi {
+		mode = pathEncodeMulti
+	}
+	return pathUnescape(s, mode)
+}
+
+// VerifParseMultiHeader wraps parseMultiHeader.
+func VerifParseMultiHeader(vals []string) []string { return parseMultiHeader(vals) }
+
+// VerifPathVariable mirrors pathVariable.
+type VerifPathVariable struct {
+	FieldPath  string
+	Start, End int
+}
+
+// VerifParsePathTemplate wraps parsePathTemplate.
+func VerifParsePathTemplate(template string) (path []string, verb string, vars []VerifPathVariable, err error) {
+	segments, variables, err := parsePathTemplate(template)
+	if err != nil {
+		return nil, "", nil, err
+	}
+	for _, v := range variables {
+		vars = append(vars, VerifPathVariable{FieldPath: v.fieldPath, Start: v.start, End: v.end})
+	}
+	return segments.path, segments.verb, vars, nil
+}
+
+// VerifEnvelope mirrors envelope.
+type VerifEnvelope struct {
+	Trailer, Compressed bool
+	Length              uint32
+}
+
+func verifEnveloper(handler string) envelopedProtocolHandler {
+	switch handler {
+	case "grpc-client":
+		return grpcClientProtocol{}
+	case "grpc-server":
+		return grpcServerProtocol{}
+	case "grpcweb-client":
+		return grpcWebClientProtocol{}
+	case "grpcweb-server":
+		return grpcWebServerProtocol{}
+	case "connect-client":
+		return connectStreamClientProtocol{}
+	case "connect-server":
+		return connectStreamServerProtocol{}
+	default:
+		return nil
+	}
+}
+
+// VerifDecodeEnvelope calls decodeEnvelope of the named protocol handler.
+func VerifDecodeEnvelope(handler string, b [5]byte) (VerifEnvelope, error) {
+	env, err := verifEnveloper(handler).decodeEnvelope(envelopeBytes(b))
+	return VerifEnvelope{Trailer: env.trailer, Compressed: env.compressed, Length: env.length}, err
+}
+
+// VerifEncodeEnvelope calls encodeEnvelope of the named protocol handler.
+func VerifEncodeEnvelope(handler string, env VerifEnvelope) [5]byte {
+	return [5]byte(verifEnveloper(handler).encodeEnvelope(envelope{trailer: env.Trailer, compressed: env.Compressed, length: env.Length}))
+}
